@@ -186,9 +186,10 @@ def family(tier, rng):
     # unmod / unshift, use-defsrc, transparent fall-through (incl. nested)
     add("unmod_src_trans", "abc", [{"a": UNMOD("x"), "b": LWH(1), "c": TR},
                                    {"a": SRC, "b": TR, "c": MULTI(K("lsft"), TR)}], qmax=2)
+    # a global override replaces the held key's output (the table lists the override's output as well)
+    add("overrides", "abc", [{"a": X, "b": K("lsft"), "c": SX}], qmax=2 if tier == "quick" else 3, overrides=[(["lsft", "x"], ["y"])])
     if tier == "thorough":
         add("unshift_multi", "abc", [{"a": MULTI(K("lsft"), UNSHIFT("x")), "b": K("lsft"), "c": UNMOD("y", "z")}])
-        add("overrides", "abc", [{"a": X, "b": K("lsft"), "c": SX}], overrides=[(["lsft", "x"], ["y"])])
         add("three_layers", "abc", [{"a": X, "b": LWH(1), "c": LWH(2)},
                                     {"a": Y, "b": TR, "c": TR},
                                     {"a": TR, "b": SX, "c": TR}])
@@ -196,8 +197,9 @@ def family(tier, rng):
                                   {"a": Y, "b": LSW(0), "c": TR},
                                   {"a": CH(["lctl"], "z"), "b": TR, "c": TR}])
         add("multi_layer_key", "ab", [{"a": MULTI(LWH(1), X), "b": Y}, {"a": Z, "b": SX}])
-        add("th_nested_trans", "abc", [{"a": X, "b": LWH(1), "c": Y}, {"a": TH(TR, K("lsft"), 3), "b": TR, "c": TH(SRC, Z, 2)}])
-        add("relkey_os", "abc", [{"a": SX, "b": RELK("x"), "c": OS(3, K("lctl"), "one-shot-release")}])
+        add("th_nested_trans", "abc", [{"a": X, "b": LWH(1), "c": Y},
+                                       {"a": TH(TR, K("lsft"), 2), "b": TR, "c": MULTI(K("lctl"), SRC)}], qmax=2)
+        add("relkey_os", "abc", [{"a": SX, "b": RELK("x"), "c": OS(3, K("lctl"), "one-shot-release")}], qmax=2, os_bound=2)
         # every outer form x every leaf, on the base layer and on a held layer
         leaves = {"key": X, "chord": SX, "unmod": UNMOD("x"), "src": SRC, "trans": TR}
         outers = {
@@ -211,7 +213,7 @@ def family(tier, rng):
         }
         for on, of in outers.items():
             for ln, leaf in leaves.items():
-                if on == "os" and ln in ("unmod",):
+                if on == "os" and ln not in ("key", "chord"):     # the parser allows only keys / chords / layer-while-held
                     continue
                 act = of(leaf)
                 kw = {"os_bound": 2} if on == "os" else {}
@@ -305,7 +307,7 @@ def run(tier, seed):
                   [flow.hist_to_script(d["h"], 8) for d in r.get("drift_samples", [])]
         if scripts:
             witness_jobs.append({"cfg": kbd, "params": params, "tag": "w:" + name, "scripts": scripts})
-        n = 25 if tier == "quick" else 150
+        n = 25 if tier == "quick" else (40 if name.startswith("n_") else 150)
         scripts = [rand_history(rng, keys, rng.randint(4, 40 if tier == "quick" else 200),
                                 [0, 0, 1, 1, 2, 3, 4, 7], tail=12, repeat_p=0.45) for _ in range(n)]
         jobs_random.append({"cfg": kbd, "params": params, "tag": "r:" + name, "scripts": scripts + scripted(desc)})
@@ -318,6 +320,24 @@ def run(tier, seed):
                                 [0, 0, 1, 1, 2, 3, 6, 9], tail=12, repeat_p=0.45) for _ in range(n)]
         jobs_random.append({"cfg": kbd, "params": params, "tag": "x:" + name, "scripts": scripts + scripted(desc)})
     res.extra["key_outputs_table_mismatches"] = table_diffs
+    if tier == "thorough":
+        # DESIGN 3.4 model mutants: seeded design errors of KeyRepeat.tla must be rejected by P_C14 in the model
+        fam = {n: (d, io) for n, d, io in family("quick", rng)}
+        rejected = {}
+        for bug, iname in (("kr_prefer_first", "layers_chord"), ("kr_base_layer", "layers_chord"),
+                           ("kr_no_active_check", "fork_switch")):
+            desc, io = fam[iname]
+            inst = {"name": "c14_bug_%s" % bug, "kbd": render_kbd(desc), "keys": [cfgdesc.code(k) for k in desc["keys"]],
+                    "monitor": {"module": "P_C14", "params": params_of(desc)}, "bug": bug, "edges": False,
+                    "extra_actions": REPEAT_ENV, "extra_next": "\\/ (\\E c \\in EnvKeys : Repeat(c))",
+                    "view": VIEW, "invariants": []}
+            inst.update(io)
+            inst["extra_defs"] = inst.pop("bound_defs", "")
+            r = mc.check_instance(inst, wd, workers=8, timeout=1500, replay=False)
+            rejected[bug] = r["n_monerr"]
+            if not r["n_monerr"]:
+                raise ToolError("model mutant %s of KeyRepeat.tla is not rejected by P_C14 on %s" % (bug, iname))
+        res.extra["model_mutants_rejected"] = rejected
     for label, jobs in (("witness", witness_jobs), ("random", jobs_random)):
         if not jobs:
             continue
